@@ -314,7 +314,8 @@ class NetAddr():
             if isinstance(val, str):
                 res += self._strpad4(len(val.encode('utf-8')))
             elif isinstance(val, (bytes, bytearray, memoryview)):
-                res += 4 + len(val) + (-len(val) & 3)  # Size bytes + data pad4.
+                size = memoryview(val).nbytes
+                res += 4 + size + (-size & 3)  # Size bytes + data pad4.
             elif isinstance(val, list):
                 # Arrays are messages converted to blobs.
                 res += self._calc_msg_dgram_size(val) + 4  # Blob size bytes.
